@@ -94,9 +94,41 @@ Definition policy_in (tbl : list (Z * Z)) (p : Z * Z) : bool := existsb (fun q =
 
 (* ------------------------------------------------------------------ the context reader of the correspondence run *)
 (* MinidumpContext::read (C02: layout by architecture, context_flags checked) followed by get_instruction_pointer /
-   get_stack_pointer: positions of the two registers among the structure's integers in declaration order
-   (CONTEXT_X86 eip / esp, CONTEXT_AMD64 rip / rsp, CONTEXT_ARM iregs[15] / iregs[13], CONTEXT_ARM64 pc / sp,
-   CONTEXT_ARM64_OLD pc / sp, CONTEXT_MIPS epc / iregs[29]).  PPC / PPC64 / SPARC: not interpreted here (None). *)
+   get_stack_pointer.  The two registers are found BY FIELD NAME in the structure as format.rs declares it (Gen/Layouts.v: layout
+   L_CONTEXT_* and field names N_CONTEXT_*, regenerated on every run): CONTEXT_X86 eip / esp, CONTEXT_AMD64 rip / rsp, CONTEXT_ARM
+   iregs[15] / iregs[13], CONTEXT_ARM64 and CONTEXT_ARM64_OLD pc / sp, CONTEXT_MIPS epc / iregs[29].
+   PPC / PPC64 / SPARC: not interpreted here (None). *)
+From Coq Require Import String.
+(* how many integers a layout flattens to (vflat: one per scalar, arrays element by element) *)
+Fixpoint lcount (L : layout) : nat :=
+  match L with
+  | LU _ | LI _ => 1%nat
+  | LNil => 0%nat
+  | LSeq a b => (lcount a + lcount b)%nat
+  | LArr n t => (n * lcount t)%nat
+  end.
+(* position, among the flattened integers of a structure, of (the first integer of) the field called [nm] *)
+Fixpoint field_pos (L : layout) (names : list string) (nm : string) : option nat :=
+  match L, names with
+  | LSeq a b, n :: ns => if String.eqb n nm then Some 0%nat
+                         else match field_pos b ns nm with Some k => Some (lcount a + k)%nat | None => None end
+  | _, _ => None
+  end.
+Definition reg_pos (L : layout) (names : list string) (ip : string * nat) (sp : string * nat) : option (nat * nat) :=
+  match field_pos L names (fst ip), field_pos L names (fst sp) with
+  | Some a, Some b => Some ((a + snd ip)%nat, (b + snd sp)%nat)
+  | _, _ => None
+  end.
+Definition ctx_regs_named (arch : Z) : option (nat * nat) :=
+  if (arch =? 0) || (arch =? 10) then reg_pos L_CONTEXT_X86 N_CONTEXT_X86 ("eip"%string, 0%nat) ("esp"%string, 0%nat)
+  else if arch =? 9 then reg_pos L_CONTEXT_AMD64 N_CONTEXT_AMD64 ("rip"%string, 0%nat) ("rsp"%string, 0%nat)
+  else if arch =? 5 then reg_pos L_CONTEXT_ARM N_CONTEXT_ARM ("iregs"%string, 15%nat) ("iregs"%string, 13%nat)
+  else if arch =? 12 then reg_pos L_CONTEXT_ARM64 N_CONTEXT_ARM64 ("pc"%string, 0%nat) ("sp"%string, 0%nat)
+  else if arch =? 32771 then reg_pos L_CONTEXT_ARM64_OLD N_CONTEXT_ARM64_OLD ("pc"%string, 0%nat) ("sp"%string, 0%nat)
+  else if arch =? 1 then reg_pos L_CONTEXT_MIPS N_CONTEXT_MIPS ("epc"%string, 0%nat) ("iregs"%string, 29%nat)
+  else None.
+(* the same positions as numbers (what is extracted: Coq strings would shadow OCaml's in the driver); equal to [ctx_regs_named] for
+   every architecture (c14_context_registers_by_name) *)
 Definition ctx_regs (arch : Z) : option (nat * nat) :=
   if (arch =? 0) || (arch =? 10) then Some (106%nat, 109%nat)
   else if arch =? 9 then Some (37%nat, 25%nat)
